@@ -388,3 +388,23 @@ PROPS['C03'].rule += ' Real-thread sub-checks: generated bounded-buffer programs
 PROPS['C05'].rule += ' Real-thread sub-checks: rounds of create/ref/unref/join with exit codes, plain result stores read after join and TLS set/replace with a counting notifier, under ThreadSanitizer, ASan and plain -O2.'
 for _e in ENGINES:
     if _e['name'] == 'rthreads': _e['serves_properties'] += ['C02', 'C03', 'C05']
+
+# ---- additions of the seeded-change rounds (see DESIGN 8.4), appended to the stated rules -----------------------------------------------
+_ADD = {
+ 'C01': ' Spinlock kind S: a redundant unlock of the free spinlock before the threads start (documented as safe), then trylock must succeed (c11/sync).',
+ 'C03': ' Gate programs: 1-3 phases pairing the same condition variable with a second mutex; try=1 programs whose wakers ask with p_mutex_trylock first (exact oracle: FALSE while the modelled native mutex is free is a violation); token passing over ONE condition variable (pp); gates opened by broadcast+signal / signal+broadcast.',
+ 'C04': ' Operands beyond 32 bits for the pointer-width operations; message-passing and store-buffering litmus in an int and a pointer-width variant.',
+ 'C05': ' Keys whose reference is released while threads hold values (gate program / barrier rounds); thread functions that return a non-NULL pointer (join yields 0); a case whose threads all sleep in futex waits with nobody holding the scheduler baton is a violation (all-threads-parked).',
+ 'C06': ' Also: initial values 32767, 32768, 65536, INT_MAX; names padded to 30-400 characters that differ only in their last character; handled signals delivered to a process that must stay blocked in acquire; race step: an OPEN-mode p_semaphore_new parked at each of its sem_open calls while the owner frees the name (NULL, the old counter, or a fresh counter carrying the given value); a worker that burns CPU without answering = the call does not return.',
+ 'C07': ' Also: padded names; one creation in eight through a READONLY handle; handled signals delivered to a process that must stay blocked in p_shm_lock; injected failure of one system call (sem_open, shm_open, ftruncate, mmap) inside p_shm_new: an absent name stays absent, an existing segment keeps its names.',
+ 'C08': ' Also: padded names; handles opened with larger size arguments.',
+ 'C09': ' Also: datagrams of length 0; a datagram queued on an almost empty loopback socket cannot be lost (skipping it or timing out with it queued is a violation); step T: stalled receiver + 60 ms send timeout + large buffers until a call times out (bytes at the peer = bytes reported as sent); after the peer has gone both p_socket_send and p_socket_send_to must fail with an error (the harness handles SIGPIPE).',
+ 'C10': ' Also: would-block faults on accept/recv/send after poll announced readiness, delivered to blocking sockets only; close() interrupted by a signal (descriptor released all the same); shutdown with every flag combination on a closed socket fails with not-available; listen on a datagram socket fails and leaves the backlog setter working; accepted sockets are switched to non-blocking and must return would-block at once (watchdog: thread parked in poll/recv/accept/connect for 5 s). Descriptor ledger: every descriptor obtained from socket/accept is closed exactly once.',
+ 'C11': ' The 2^32-byte cases continue with read / reset / "abc" / read / reset / read; a second large case reaches 2^32 bytes through two updates of 2^31+3 bytes.',
+ 'C12': ' Key 0 may be the NULL pointer (notif bit 3); every stopped traversal is followed by a full scan.',
+ 'C14': ' Key 0 may be the NULL pointer: the NULL key is accounted in the destroy log; every notifier configuration (none, key only, value only, both).',
+ 'C16': ' Names, values and comments contain bytes >= 0x80 (including the bytes the BOMs are made of; a line that would start with a complete BOM gets a leading blank); UTF-8 / UTF-16 BE / UTF-16 LE / UTF-32 BE byte order marks at the start of the file.',
+ 'C19': ' The sleep lower bound is exact (elapsed time is measured around the call); the ipc_new scenario also opens the now existing segment under the same interruptions and requires the uninterrupted outcome (size, bytes, names survive a non-owner free).',
+}
+for _k, _v in _ADD.items():
+    PROPS[_k].rule += _v
